@@ -17,6 +17,7 @@ def gen_history(rng, budget, length, ids, allow_meta=True, with_data_prob=0.0, m
     ops = []
     fns = BD.KEY_FNS
     memoized = set()
+    pool = []
 
     def size_class():
         r = rng.random()
@@ -36,7 +37,13 @@ def gen_history(rng, budget, length, ids, allow_meta=True, with_data_prob=0.0, m
             ids[0] += 1
             vk = rng.choice("bbbsnnez")
             ov = rng.choice(OVERRIDES) if rng.random() < 0.15 else None
-            ops.append(["memoize", fname, arg, ids[0], vk, ids[0], size_class(), ov])
+            if pool and rng.random() < 0.25:
+                vk, vid, n = rng.choice(pool)            # the same bytes again, for this or another call
+            else:
+                vid, n = ids[0], size_class()
+                if vk in "bsn":
+                    pool.append((vk, vid, n))
+            ops.append(["memoize", fname, arg, ids[0], vk, vid, n, ov])
             memoized.add((fname, arg))
         elif r < 0.50:
             ops.append(["read", fname, arg])
@@ -96,6 +103,11 @@ SCENARIOS = {
                                   ["ffn", "f#1"], ["ismem", "f#1", 0], ["read", "f#1", 0], ["read", "g#1", 0]],
     "forget-call-weakref-evicted": [["memoize", "f#1", 0, 9066, "n", 9066, 2000, None], ["memoize", "g#1", 0, 9067, "b", 9067, 3000, None],
                                     ["fcall", "f#1", 0], ["ismem", "f#1", 0], ["read", "f#1", 0]],
+    "same-bytes-after-forget-everything": [["memoize", "f#1", 1, 9071, "b", 9071, 9000, None], ["fall"], ["memoize", "f#10", 2, 9072, "b", 9071, 9000, None],
+                                           ["ismem", "f#10", 2], ["read", "f#10", 2], ["memoize", "g#1", 0, 9073, "s", 9074, 60, None], ["fall"],
+                                           ["memoize", "g#1", 1, 9075, "s", 9074, 60, None], ["gc"], ["read", "g#1", 1]],
+    "same-bytes-after-forget-function": [["memoize", "f#1", 1, 9081, "b", 9081, 9000, None], ["ffn", "f#1"], ["memoize", "f1#1", 2, 9082, "b", 9081, 9000, None],
+                                         ["read", "f1#1", 2], ["fcall", "f1#1", 2], ["memoize", "f#1", 0, 9083, "b", 9081, 9000, None], ["read", "f#1", 0]],
     "prefix-names": [["memoize", "f#1", 0, 9051, "b", 9051, 30, None], ["memoize", "f#10", 0, 9052, "b", 9052, 30, None],
                      ["memoize", "f1#1", 0, 9053, "b", 9053, 30, None], ["ffn", "f#1"], ["read", "f#10", 0], ["read", "f1#1", 0],
                      ["read", "f#1", 0], ["lfns"], ["fcall", "f#10", 0], ["read", "f1#1", 0], ["lmems", "f1#1"]],
